@@ -154,6 +154,70 @@ Print Assumptions noec_decrypt_encrypt.
 Print Assumptions noec_wrong_input_iff.
 Print Assumptions noec_decrypt_errors.
 
+(* ---------------------------------------------------------------- BIP-38 with EC multiplication *)
+
+Section Ec.
+  Variable sha256 : list N -> list N.
+  Variable nfc : list N -> list N.
+  Variable utf8 : list N -> res (list N).
+  Variable scrypt : list N -> list N -> N -> N -> N -> N -> list N.
+  Variable aes_enc aes_dec : list N -> list N -> list N.
+  Variable G : Type.
+  Variable base : G.
+  Variable smul : N -> G -> G.
+  Variable ser_c : G -> list N.
+  Variable deser : list N -> option G.
+  Variable p2pkh : G -> bool -> list N.
+
+  Hypothesis sha_ok : sha_law sha256.
+  Hypothesis scrypt_len : forall pw salt n r p dk, length (scrypt pw salt n r p dk) = N.to_nat dk.
+  Hypothesis aes_dec_enc : forall k b, length b = 16%nat -> aes_dec k (aes_enc k b) = b.
+  Hypothesis aes_enc_len : forall k b, length b = 16%nat -> length (aes_enc k b) = 16%nat.
+  Hypothesis aes_enc_ok : forall k b, bytes_ok (aes_enc k b).
+  Hypothesis ser_c_len : forall P, length (ser_c P) = 33%nat.
+  Hypothesis ser_c_ok : forall P, bytes_ok (ser_c P).
+  Hypothesis deser_ser : forall P, deser (ser_c P) = Some P.
+  Hypothesis smul_smul : forall a b P, smul a (smul b P) = smul (a * b) P.
+  Hypothesis smul_mod_order : forall a, smul (a mod secp256k1_order) base = smul a base.
+
+  Notation generate := (B58 generate_private_key_ec sha256 nfc utf8 scrypt aes_enc G base smul ser_c deser p2pkh).
+  Notation decrypt := (B58 ec_decrypt sha256 nfc utf8 scrypt aes_dec G base smul ser_c p2pkh).
+  Notation has_ls := Lemmas.Bip38.has_ls.
+  Notation owner_entropy_of := Lemmas.Bip38.owner_entropy_of.
+
+  (* for every passphrase, optional lot/sequence, owner salt and seedb (the library's two random draws):
+     with passfactor pf and factorb fb = sha256d(seedb) both in (0, n) and pf*fb mod n <> 0 (each fails with
+     probability ~2^-128 for real hash outputs), the generated key decrypts, under the same passphrase, to the
+     32-byte key pf*fb mod n in the requested compression mode -- acceptance includes the address-hash match *)
+  Theorem ec_decrypt_generate : forall pass c ls salt seedb oe pfb,
+    owner_entropy_of ls salt = Ok oe -> length oe = 8%nat -> bytes_ok oe ->
+    pass_factor sha256 nfc utf8 scrypt pass oe (has_ls ls) = Ok pfb ->
+    length seedb = 24%nat ->
+    let pf := be_to_int pfb in
+    let fb := be_to_int (sha256 (sha256 seedb)) in
+    0 < pf < secp256k1_order -> 0 < fb < secp256k1_order -> (pf * fb) mod secp256k1_order <> 0 ->
+    exists enc key, generate pass c ls salt seedb = Ok enc /\ decrypt enc pass = Ok (key, c) /\
+                    length key = 32%nat /\ be_to_int key = (pf * fb) mod secp256k1_order /\
+                    secp_priv_valid key = true.
+  Proof.
+    intros pass c ls salt seedb oe pfb. destruct sha_ok as [H1 H2].
+    exact (Lemmas.Bip38.ec_decrypt_generate _ _ _ sha256 nfc utf8 scrypt aes_enc aes_dec G base smul ser_c deser p2pkh
+             ConstsOk.b58_alph_btc_nodup ConstsOk.b58_alph_btc_len ConstsOk.b58_radix_ge2 H1 H2 ConstsOk.b58_cklen_le
+             scrypt_len aes_dec_enc aes_enc_len aes_enc_ok ser_c_len ser_c_ok deser_ser smul_smul smul_mod_order
+             pass c ls salt seedb oe pfb).
+  Qed.
+End Ec.
+Print Assumptions ec_decrypt_generate.
+
+(* the owner entropy is 8 bytes with and without lot/sequence (4-byte salt + 4 packed bytes, or an 8-byte salt) *)
+Theorem owner_entropy_is_8_bytes : forall ls salt oe, Lemmas.Bip38.owner_entropy_of ls salt = Ok oe ->
+  length salt = (if Lemmas.Bip38.has_ls ls then 4 else 8)%nat -> bytes_ok salt -> length oe = 8%nat /\ bytes_ok oe.
+Proof.
+  intros ls salt oe.
+  exact (Lemmas.Bip38.owner_entropy_len ls salt oe).
+Qed.
+Print Assumptions owner_entropy_is_8_bytes.
+
 (* ---------------------------------------------------------------- lot / sequence numbers, flag bytes *)
 
 (* lot*4096 + seq fits the 4 bytes exactly over lot in [0, 2^20), seq in [0, 4096) (the maximum is 2^32 - 1),
